@@ -830,6 +830,22 @@ def select_for_mode(case, mode, tier):
     return k % (16 if tier == "quick" else 5) == 0
 
 
-LEVEL_TEXT = ("Lean theorems, for all columns, span arrays and (where relevant) buffer sizes, about the executable model in "
-              "Model/Spans.lean; see checks/obligations/C08.json")
-LEVEL_NOTE = ""
+LEVEL_TEXT = ("Kernel-checked Lean 4 theorems, for all columns / span arrays / index-value buffers of any length (no bounds), about the "
+              "executable model the driver runs (Model/Spans.lean, mirroring operations.py with fixes D18, D19, NC08b, NC08c): "
+              "get_spans_for_field = Spec.spans for every comparison function; the result is strictly increasing from 0 to the row "
+              "count; adjacent rows are equal iff in the same span (and the run version); _get_spans_for_2_fields, "
+              "_get_spans_for_multi_fields, _get_spans_for_index_string_field and _get_spans_for_2_fields_by_spans return .ok (no "
+              "out-of-bounds subscript, termination) and equal the spans of the zipped / joint / decoded column, hence all entry "
+              "points agree; apply_spans_count/first/last/min/max/index_of_first/index_of_last/index_of_min/index_of_max and the "
+              "indexed-string index_of_min/max return .ok with one entry per span equal to the reduction over exactly that span's "
+              "rows (first extremal row on ties, bytewise lexicographic order for strings); the Session/Field wrappers are "
+              "transparent on well-formed spans; int32 is only chosen when every entry fits. The model is tied to the source by "
+              "differential execution (JIT, interpreted, bounds-checked) over an exhaustive small scope plus seeded random and "
+              "malformed cases.")
+LEVEL_NOTE = ("Not proved, only validated by the correspondence run: the four apply_spans_*_filter kernels (no caller in ExeTera), the "
+              "behaviour on malformed span arrays (error branches), and everything the model takes from numpy/numba as given (`!=` on "
+              "arrays, np.nonzero, argmin/argmax tie rule, unsigned byte order of fixed strings, apply_index_to_indexed_field). "
+              "session_get_spans_fields_eq_spec is proved only for exactly two fields (`…_partial`): Session.get_spans(fields=…) "
+              "ignores every field after the second and raises IndexError for a single one (open finding NC08d, witness theorem "
+              "Witness.C08.nc08d_third_field_ignored). The theorems speak about the code WITH the four fix patches in fixes/ applied; "
+              "on the unpatched tree the corpus cases D18/D19/NC08a/NC08b/NC08c fail and are reported as VIOLATIONs with replay.")
